@@ -12,7 +12,37 @@ RULE = _base.SPACE_TEXT + (
     "(True / False / TimeoutError / identical exception object) must be "
     "admissible and failed_time_out(), failed_critical(), why() must name "
     "exactly it. non-trivial = a failure is admissible or two causes tie")
-globals().update(_base.std(monitors.c04))
+
+
+def emptied(v):
+    """second run of a scheduler whose first run failed and which was then
+    emptied with remove(): an empty scheduler succeeds, so the run reports
+    success and the diagnosis names no cause (non-initial state, C04-w6m1)"""
+    viols = []
+    top = v.ex.scn['tree']['name']
+    if v.ex.outcome[0] in ('deadlock', 'horizon'):
+        return viols, False
+    d = v.ex.post['scheds'][top]
+    if v.ex.outcome != ('return', True):
+        viols.append(('c04:emptied:verdict', "the run of the emptied scheduler"
+                      " %s ends with %r instead of returning True"
+                      % (top, v.ex.outcome)))
+    elif d['fto'] or d['fcrit'] or d['why'] != 'FINE':
+        viols.append(('c04:emptied:diagnosis', "the run of the emptied "
+                      "scheduler %s succeeded but failed_time_out()=%r "
+                      "failed_critical()=%r why()=%r (left over from its "
+                      "previous, failed run)" % (top, d['fto'], d['fcrit'],
+                                                 d['why'])))
+    return viols, True
+
+
+def monitor(v):
+    if v.ex.scn.get('rerun') == 'emptied':
+        return emptied(v)
+    return monitors.c04(v)
+
+
+globals().update(_base.std(monitor))
 
 JOB = {'out': ['raise'], 'critical': [True], 'dur': [0, 2, 3, 'never'],
        'forever': [True]}
@@ -25,6 +55,19 @@ TOPS = [[], [('top', 'k', 'nest')],
 
 def items(tier, seed):
     th = tier == 'thorough'
+    # non-initial state: the scheduler has failed once (timeout, critical
+    # job), was emptied, and runs again
+    RE = [('', 'rerun', 'emptied')]
+    yield from spaces.mk(
+        ['flat23', 'nest21'], force='product',
+        fargs={'parts': [
+            ('mods', {'alts': [RE + [('top', 'timeout', 1), ('a', 'dur', 3)],
+                               RE + [('top', 'timeout', 0)],
+                               RE + [('a', 'out', 'raise'),
+                                     ('a', 'critical', True)]]}),
+            ('mods', {'alts': TOPS})]},
+        job_open={'dur': [0, 2], 'out': ['raise']}, top_open={'window': [1]},
+        nest_open={}, k=1, bound=1)
     # every assignment return / raise / critical raise to the jobs, under
     # each kind of top scheduler, with and without a timeout
     yield from spaces.mk(
